@@ -36,12 +36,22 @@ def surf_state(rng):
                 tf=rq(rng, 0.3, 0.8), wind=rq(rng, 0, 8, 10))
 
 
-def impl_surf(pkg, st, road, m, s, e):
+DAYS = [1, 1, 15, 28, 29, 30, 31]
+
+
+def clock(pkg, rng, m):
+    """A REAL SimParam (clock) showing month m and a start day 1..31 - the package accepts every such pair,
+    also days beyond the end of the month (2/30, 4/31: the clock then shows month m, day 31, while the day of
+    the year lies in the next month). C18 is stated on the clock's month."""
+    return pkg.simparam.SimParam(300, 3600, m, rng.choice(DAYS), 1)
+
+
+def impl_surf(pkg, st, road, m, s, e, sim=None):
     el = make_element(pkg, st, road)
     forc = NS(pres=F(101325), prec=F(0), deepTemp=F(290))
     par = NS(vegStart=s, vegEnd=e, vegAlbedo=st['va'], grassFLat=st['gf'], treeFLat=st['tf'],
              colburn=F(1), waterDens=F(1000), cp=F(1004), lv=F(2260000), wgmax=F(1, 200))
-    sim = NS(month=m, dt=F(300))
+    sim = sim or NS(month=m, dt=F(300))
     el.SurfFlux(forc, par, sim, F(1, 100), st['tr'], st['wind'], F(2), F(0))
     return [el.solAbs, el.lat, el.sens, el.flux], el.aeroCond
 
@@ -52,7 +62,7 @@ def surf_line(st, road, m, s, e, aero):
     return 'surf m=%d s=%d e=%d road=%d v=%s' % (m, s, e, 1 if road else 0, frac_list(v))
 
 
-def impl_road_albedo(pkg, m, s, e, alb, vc, va, full=False):
+def impl_road_albedo(pkg, m, s, e, alb, vc, va, full=False, sim=None):
     """Road albedo used by the real solarcalcs, read off `mr` with non-reflecting walls
     (alb_wall = 0 gives fr = 1 and mr = alb_road * roadSol exactly)."""
     SolarCalcs = pkg.solarcalcs.SolarCalcs
@@ -60,7 +70,7 @@ def impl_road_albedo(pkg, m, s, e, alb, vc, va, full=False):
     UCM = NS(canAspect=F(3, 4), wallConf=F(1, 4), roadConf=F(1, 2), alb_wall=F(0), road=road,
              vegcover=vc * F(1, 2), treeCoverage=F(1, 10))
     par = NS(vegStart=s, vegEnd=e, vegAlbedo=va, treeFLat=F(1, 2), grassFLat=F(2, 5))
-    sol = SolarCalcs(UCM, [], NS(month=m), NS(), NS(dir=F(500), dif=F(100)), par, NS(solRec=F(0)))
+    sol = SolarCalcs(UCM, [], sim or NS(month=m), NS(), NS(dir=F(500), dif=F(100)), par, NS(solRec=F(0)))
 
     def angles():
         sol.zenith = F(1, 2)
@@ -156,6 +166,129 @@ def live_season_runs(chk):
                'against a freshly constructed SolarCalcs', mismatches=len(bad))
 
 
+def live_configured_season_runs(chk):
+    """Real 1-day simulations judged against the CONFIGURED season (model.vegstart..model.vegend, not the Param
+    object the kernels are handed) and the month the clock shows:
+      * start days beyond the end of the start month (2/29, 2/30, 4/31, 6/31, 9/31, 11/31 - all accepted by the
+        package; the clock keeps the start month while the day of the year already lies in the next month) with the
+        season starting the month after / ending in the start month, plus ordinary start days as controls;
+      * configurations without any vegetated ground (grasscover = treecover = rurvegcover = 0) but vegetated roofs
+        (the vegroof override, or a custom reference building whose roof is vegetated), and the partial variants.
+    Per step: every horizontal element with vegetation (road, rural ground, ROOFS) absorbs the vegetated amount
+    exactly in season and the bare-ground amount outside; the reflection model releases vegetation heat exactly
+    in season (when the road has vegetation and sunlight) - i.e. both models agree with the clock month."""
+    import core
+    import s3_util as S3
+    import uwgutil as U
+    uwg = U.uwg_mod()
+    import uwg.solarcalcs as SC
+    import uwg.element as EL
+    work = chk.work()
+    odd = [dict(month=4, day=31, vegstart=5, vegend=10), dict(month=2, day=30, vegstart=3, vegend=12),
+           dict(month=2, day=30, vegstart=1, vegend=2), dict(month=6, day=31, vegstart=4, vegend=6),
+           dict(month=4, day=31, vegstart=4, vegend=4), dict(month=4, day=30, vegstart=5, vegend=10),
+           dict(month=5, day=1, vegstart=5, vegend=10)]
+    noground = dict(grasscover=0, treecover=0, rurvegcover=0)
+    roofs = [dict(noground, month=7, day=10, vegstart=4, vegend=10, vegroof=0.5),
+             dict(noground, month=4, day=1, vegstart=4, vegend=10, vegroof=1.0),
+             dict(noground, month=2, day=10, vegstart=4, vegend=10, vegroof=0.5),
+             dict(noground, month=7, day=10, vegstart=4, vegend=10, custom_roof=0.6),
+             dict(month=7, day=10, vegstart=4, vegend=10, vegroof=0.5, grasscover=0, treecover=0),
+             dict(month=10, day=31, vegstart=4, vegend=10, vegroof=0.3, rurvegcover=0, grasscover=0.0, treecover=0.1)]
+    if chk.tier == 'thorough':
+        odd += [dict(month=2, day=29, vegstart=3, vegend=12), dict(month=2, day=31, vegstart=3, vegend=11),
+                dict(month=9, day=31, vegstart=10, vegend=12), dict(month=11, day=31, vegstart=12, vegend=12),
+                dict(month=11, day=31, vegstart=1, vegend=11), dict(month=9, day=31, vegstart=1, vegend=9),
+                dict(month=6, day=31, vegstart=7, vegend=7), dict(month=1, day=31, vegstart=2, vegend=12)]
+        roofs += [dict(noground, month=mo, day=15, vegstart=4, vegend=10, vegroof=0.5) for mo in (3, 4, 10, 11)]
+        roofs += [dict(noground, month=6, day=15, vegstart=6, vegend=6, custom_roof=1.0),
+                  dict(noground, month=12, day=1, vegstart=1, vegend=12, vegroof=0.25)]
+    bad, counts = [], {}
+    cur = {}
+    orig_solar = SC.SolarCalcs.solarcalcs
+    orig_surf = EL.Element.SurfFlux
+
+    def count(k):
+        counts[k] = counts.get(k, 0) + 1
+
+    def solar_wrap(self):
+        out = orig_solar(self)
+        if self.dir + self.dif > 0:
+            mth = self.simTime.month
+            ins = cur['vs'] <= mth <= cur['ve']
+            heat = (self.UCM.treeSensHeat, self.UCM.treeLatHeat)
+            if not ins:
+                count('solarcalcs:off-season')
+                if heat != (0., 0.) and len(bad) < 3:
+                    bad.append('reflection model releases vegetation heat %r with the clock at month %d day %s, '
+                               'outside the configured season %d..%d' % (heat, mth, self.simTime.day, cur['vs'], cur['ve']))
+            elif self.UCM.vegcover > 0 and self.UCM.SolRecRoad > 0 and self.parameter.vegAlbedo < 1:
+                count('solarcalcs:in-season')
+                if not (heat[0] + heat[1] > 0) and len(bad) < 3:
+                    bad.append('reflection model treats the road as bare (vegetation heat %r) with the clock at month '
+                               '%d day %s, inside the configured season %d..%d' % (
+                                   heat, mth, self.simTime.day, cur['vs'], cur['ve']))
+        return out
+
+    def surf_wrap(self, forc, parameter, simTime, *a, **k):
+        r = orig_surf(self, forc, parameter, simTime, *a, **k)
+        if self.horizontal and self.solRec > 0 and self.vegcoverage > 0 and parameter.vegAlbedo != self.albedo:
+            mth = simTime.month
+            ins = cur['vs'] <= mth <= cur['ve']
+            kind = cur['kinds'].get(id(self), 'other')
+            count('%s:%s' % (kind, 'in-season' if ins else 'off-season'))
+            bare = (1.0 - self.albedo) * self.solRec
+            if (self.solAbs == bare) == ins and len(bad) < 3:
+                bad.append('%s (%s): absorbed sunlight %r is %s the bare-ground value with the clock at month %d day %s; '
+                           'configured season %d..%d (season handed to the kernels: %s..%s)' % (
+                               kind, self.name, self.solAbs, 'equal to' if self.solAbs == bare else 'not', mth,
+                               simTime.day, cur['vs'], cur['ve'], parameter.vegStart, parameter.vegEnd))
+        return r
+    SC.SolarCalcs.solarcalcs = solar_wrap
+    EL.Element.SurfFlux = surf_wrap
+    done = 0
+    try:
+        for cfg in odd + roofs:
+            attrs = {k: v for k, v in cfg.items() if k != 'custom_roof'}
+            m = U.new_model(outdir=work, outname='c18b.epw', nday=1, dtsim=300, **attrs)
+            if 'custom_roof' in cfg:
+                bem, sch = S3.custom_from_library(uwg)
+                bem.roof.vegcoverage = cfg['custom_roof']
+                m.ref_bem_vector, m.ref_sch_vector = m._check_reference_data([bem], [sch])
+            nb = len(bad)
+            try:
+                with core.quiet():
+                    m.generate()
+                    cur.update(vs=m.vegstart, ve=m.vegend, kinds={id(m.UCM.road): 'road', id(m.rural): 'rural'})
+                    for b in m.BEM:
+                        cur['kinds'][id(b.roof)] = 'roof'
+                    m.simulate()
+                done += 1
+            except Exception as e:  # noqa: BLE001 - the model's own fail-stop is not a verdict here
+                if type(e) is not Exception:
+                    raise
+                chk.notes.append('configured-season run %s skipped: %s' % (cfg, str(e)[:60]))
+            for msg in bad[nb:]:
+                chk.violation('impl-violation', 'season oracle on a live simulation (configured season, clock month)',
+                              case=cfg, observed=msg,
+                              expected='vegetation acts on every vegetated horizontal surface (road, rural ground, '
+                                       'roofs) in exactly the months vegstart..vegend shown by the clock, and the '
+                                       'reflection model agrees')
+    finally:
+        SC.SolarCalcs.solarcalcs = orig_solar
+        EL.Element.SurfFlux = orig_surf
+    if done and not counts.get('roof:in-season'):
+        raise core.Infra('no vegetated roof was simulated in season')
+    chk.direct('live-configured-season(odd start days; vegetated roofs without vegetated ground)',
+               sum(counts.values()), done,
+               'real 1-day simulations (a) starting on days beyond the end of the start month (4/31, 2/30, 6/31, ... '
+               'accepted by the package; the clock shows the start month) with the season beginning the month after or '
+               'ending in that month, plus ordinary starts; (b) with grasscover = treecover = rurvegcover = 0 and '
+               'vegetated roofs (vegroof override or custom reference roof), and partial variants: every solarcalcs '
+               'call and every SurfFlux call of a vegetated horizontal element (road, rural, roofs) judged against '
+               'the configured vegstart..vegend and the clock month', mismatches=len(bad), branches=counts)
+
+
 def run(chk):
     chk.proof(MODULE, THEOREMS)
     if chk.tier == 'thorough':
@@ -171,22 +304,26 @@ def run(chk):
         for road in (True, False):
             for _ in range(nstates):
                 st = surf_state(rng)
-                out, aero = impl_surf(pkg, st, road, m, s, e)
+                ck = clock(pkg, rng, m)
+                out, aero = impl_surf(pkg, st, road, m, s, e, sim=ck)
                 cases.append((surf_line(st, road, m, s, e, aero), 'ok ' + frac_list(out)))
-                meta.append((m, s, e, road, st, out))
+                meta.append((m, s, e, road, dict(st, clock_day=ck.day), out))
     chk.correspond('Element.SurfFlux~surfFluxHorizontal', 'C18', cases,
                    rule='fractionised Element.SurfFlux (horizontal) for ALL 12x12x12 (month,start,end) '
-                        'x {road, non-road} x random states vs Lean model, exact; every case non-trivial',
+                        'x {road, non-road} x random states vs Lean model, exact; every case non-trivial; the clock '
+                        'handed in is a real SimParam showing that month and a day drawn from 1, 15, 28..31 (days '
+                        'beyond the end of the month included: the package accepts them)',
                    classify=lambda l, i: 'road' if 'road=1' in l else 'nonroad')
 
     # --- tie 2: road albedo inside solarcalcs, every triple
     cases2, meta2 = [], []
     for (m, s, e) in triples:
         alb, vc, va = rq(rng, 0.05, 0.5), rq(rng, 0.05, 0.95), rq(rng, 0.1, 0.45)
-        got = impl_road_albedo(pkg, m, s, e, alb, vc, va)
+        ck = clock(pkg, rng, m)
+        got = impl_road_albedo(pkg, m, s, e, alb, vc, va, sim=ck)
         cases2.append(('alb m=%d s=%d e=%d v=%s' % (m, s, e, frac_list([alb, vc, va])),
                        'ok ' + frac_str(got)))
-        meta2.append((m, s, e, alb, vc, va, got))
+        meta2.append((m, s, e, alb, vc, va, got, ck.day))
     chk.correspond('SolarCalcs.road-albedo~roadAlbedo', 'C18', cases2,
                    rule='road albedo used by the real solarcalcs (recovered exactly from mr with '
                         'non-reflecting walls) for ALL 12x12x12 triples vs Lean roadAlbedo',
@@ -196,10 +333,11 @@ def run(chk):
     cases3, meta3 = [], []
     for (m, s, e) in triples:
         alb, vc, va = rq(rng, 0.05, 0.5), rq(rng, 0.05, 0.95), rq(rng, 0.1, 0.45)
-        _a, ts, tl, rr, tc, vcov, tf, gf = impl_road_albedo(pkg, m, s, e, alb, vc, va, full=True)
+        ck = clock(pkg, rng, m)
+        _a, ts, tl, rr, tc, vcov, tf, gf = impl_road_albedo(pkg, m, s, e, alb, vc, va, full=True, sim=ck)
         cases3.append(('vegheat m=%d s=%d e=%d v=%s' % (m, s, e, frac_list([va, tf, gf, rr, tc, vcov])),
                        'ok ' + frac_list([ts, tl])))
-        meta3.append((m, s, e, ts, tl))
+        meta3.append((m, s, e, ts, tl, ck.day))
     chk.correspond('SolarCalcs.vegetation-heat~vegHeat', 'C18', cases3,
                    rule='UCM.treeSensHeat/treeLatHeat after the real solarcalcs for ALL 12x12x12 '
                         'triples vs Lean vegHeat', classify=lambda l, i: 'all')
@@ -223,7 +361,7 @@ def run(chk):
                               observed='solAbs=%s lat=%s (in season: %s)' % (out[0], out[1], inseason),
                               expected='bare-ground values exactly outside [start,end], vegetation '
                                        'values inside')
-    for (m, s, e, alb, vc, va, got) in meta2:
+    for (m, s, e, alb, vc, va, got, cday) in meta2:
         if s > e:
             continue
         inseason = s <= m <= e
@@ -232,15 +370,15 @@ def run(chk):
             bad += 1
             if bad <= 4:
                 chk.violation('impl-violation', 'season oracle on solarcalcs road albedo',
-                              case={'month': m, 'vegStart': s, 'vegEnd': e, 'albedo': str(alb),
-                                    'vegcoverage': str(vc), 'vegAlbedo': str(va)},
+                              case={'clock_month': m, 'clock_day': cday, 'vegStart': s, 'vegEnd': e,
+                                    'albedo': str(alb), 'vegcoverage': str(vc), 'vegAlbedo': str(va)},
                               observed=str(got), expected=str(want))
-    for (m, s, e, ts, tl) in meta3:
+    for (m, s, e, ts, tl, cday) in meta3:
         if s <= e and not (s <= m <= e) and (ts != 0 or tl != 0):
             bad += 1
             if bad <= 6:
                 chk.violation('impl-violation', 'season oracle on solarcalcs vegetation heat',
-                              case={'month': m, 'vegStart': s, 'vegEnd': e},
+                              case={'clock_month': m, 'clock_day': cday, 'vegStart': s, 'vegEnd': e},
                               observed='treeSensHeat=%s treeLatHeat=%s' % (ts, tl),
                               expected='0 outside the season (vegetation parameters have no effect)')
     chk.direct('season-oracle(SurfFlux, solarcalcs)', len(meta) + len(meta2) + len(meta3),
@@ -249,6 +387,7 @@ def run(chk):
                'real code for every start<=end triple (element fluxes, road albedo, vegetation heat)',
                mismatches=bad)
     live_season_runs(chk)
+    live_configured_season_runs(chk)
     wrap = [(m, s, e) for (m, s, e, *_r) in meta2 if s > e]
     chk.measurements['wraparound'] = (
         'start > end (%d of 1728 triples): both routines treat every month as off-season '
